@@ -787,7 +787,9 @@ func (c *Conn) advanceFrame() (int, error) {
 	c.readRemaining = int64(p[1] & 0x7f)
 
 	c.readDecompress = false
-	if c.newDecompressionReader != nil && (p[0]&rsv1Bit) != 0 {
+	// RFC 7692 section 6.1: only the first frame of a data message may carry
+	// the per-message-compressed bit; on any other frame RSV1 is a reserved bit.
+	if c.newDecompressionReader != nil && (p[0]&rsv1Bit) != 0 && isData(frameType) {
 		c.readDecompress = true
 		p[0] &^= rsv1Bit
 	}
